@@ -63,6 +63,12 @@ CHECKS = {
  'C18': ('Hypothesis-generated measurement sets x marginal oracle x iteration counts: crash-freedom and validity predicate on the measured clique tables, loss vs uniform start, feasibility of the convex oracle; differential against the certified simplex-QP optimum on disjoint clique families',
          'Generated-input search; every exception raised by the estimator is a violation (inputs stay inside the documented interface: explicit Q, tuple projections); exactness clause with iteration escalation and plateau rule.',
          'pairwise-convex oracle needs cvxopt (not installed) and is outside the listed quantifier.'),
+ 'C05': ('Hypothesis-generated (mechanism, dataset, neighbour, parameters, numpy seed); numpy.random interposer with operand capture and coupled replay on the neighbour; privacy ledger vs the harness-own zCDP conversion',
+         'Generated-input search over all four shipped mechanisms: each noisy release and private selection is charged by the actual change of its operand / probability vector between D and D\' and the total is compared with an independently computed budget. Samples random outcome sequences (seeds); does not enumerate them.',
+         'hdmm Identity replaced by scipy.sparse.eye; inference iterations capped at 25 inside the mechanisms; selections charged with the bounded-range bound eta^2/8. F12 (AIM with too few rounds) is a listed known finding.'),
+ 'C06': ('Hypothesis-generated mechanism runs; coupled replay (forced identical releases and selections) on a neighbouring dataset; event-sequence and output equality; domain conformance predicate',
+         'Generated-input search: any dependence of control flow, noise scales, sampling probabilities or output on the private data other than through the recorded primitives shows up as a difference between the two coupled executions.',
+         'Same test doubles as C05; numpy global RNG state is part of the case; AdaGrid thresholds are aimed at actual one-way counts in half of its cases.'),
 }
 NOT_YET = 'check not built yet (work in progress in this session); see DESIGN.md for the planned check'
 
